@@ -22,6 +22,13 @@ def nextest_config(sc, profile="default"):
     if sc.get("ta"):
         st += f', terminate-after = {sc["ta"]}'
     st += f', grace-period = "{ms(sc["grace"], u)}ms"'
+    if sc.get("as_script"):
+        # the subject is a setup script (same wait loops as a test); one trivial test needs it
+        py = os.path.join(e2e.E2E, "puppet.py")
+        return (f'experimental = ["setup-scripts"]\n[profile.{profile}]\nfail-fast = false\nretries = 0\n'
+                f'[[profile.{profile}.scripts]]\nfilter = "all()"\nsetup = "subject"\n'
+                f'[script.subject]\ncommand = "/usr/bin/python3 -S -E {py} --script subject"\n'
+                f'slow-timeout = {{ {st} }}\nleak-timeout = "{ms(sc["leak"], u)}ms"\n')
     cfg = (f'[profile.{profile}]\nslow-timeout = {{ {st} }}\nleak-timeout = "{ms(sc["leak"], u)}ms"\n'
            f'fail-fast = false\nretries = 0\n')
     rc = sc.get("retry_companion")
@@ -48,6 +55,9 @@ def puppet_scenario(sc):
     if sc.get("hold"):
         # a descendant keeps the test's stdout open for `hold` units after the test itself exited
         beh["child"] = {"for": (sc["dur"] + sc["hold"]) * u, "hold": ["stdout"], "on_term": "ignore"}
+    if sc.get("as_script"):
+        return {"scripts": {"subject": beh},
+                "bins": {"alpha::t1": {"tests": {"after": {"attempts": [{"exit": 0}]}}}}}
     tests = {"subject": {"attempts": [beh]}}
     if sc.get("retry_companion"):
         # sorts before "subject" in the same binary; fails at once, then sits in its retry delay
@@ -109,7 +119,8 @@ def run_real(rig, sc, timeout=40):
         def f(ctx):
             if t_start[0] is None:
                 for r in e2e.read_jsonl(ctx["tap"]):
-                    if r.get("kind") == "TestStarted" and r["test"][1] == "subject" and "mono" in r:
+                    if "mono" in r and ((r.get("kind") == "TestStarted" and r["test"][1] == "subject") or
+                                        (r.get("kind") == "SetupScriptStarted" and r.get("script") == "subject")):
                         t_start[0] = r["mono"]
                         break
             return t_start[0] is not None and time.monotonic() >= t_start[0] + delay
@@ -130,6 +141,8 @@ def observe(sc, res):
     t0, pid = st[0]["t"], st[0]["pid"]
     # time base: the TestStarted event (CLOCK_MONOTONIC from the tap), just before the spawn
     ts = [e for e in tap if e.get("kind") == "TestStarted" and e["test"][1] == "subject" and "mono" in e]
+    if sc.get("as_script"):
+        ts = [e for e in tap if e.get("kind") == "SetupScriptStarted" and e.get("script") == "subject" and "mono" in e]
     if ts:
         t0 = ts[0]["mono"]
     rel = lambda t: (t - t0) * 1000.0
@@ -140,8 +153,13 @@ def observe(sc, res):
     ends = [r for r in log if r.get("ev") == "end" and r.get("test") == "subject"]
     fin = [e for e in tap if e.get("kind") == "TestFinished" and e["test"][1] == "subject"]
     slow_ev = [e for e in tap if e.get("kind") == "TestSlow" and e["test"][1] == "subject"]
+    if sc.get("as_script"):
+        sfin = [e for e in tap if e.get("kind") == "SetupScriptFinished" and e.get("script") == "subject"]
+        fin = [dict(statuses=[e["status"]], t_ns=e["t_ns"]) for e in sfin]
+        slow_ev = [e for e in tap if e.get("kind") == "SetupScriptSlow" and e.get("script") == "subject"]
     runfin = [e for e in tap if e.get("kind") == "RunFinished"]
-    o = {"started": True, "rc": res["rc"], "pid": pid, "sig_test": sig_test, "sig_child": sig_child,
+    after_started = any(r.get("ev") == "start" and r.get("test") == "after" for r in log)
+    o = {"started": True, "rc": res["rc"], "pid": pid, "after_started": after_started, "sig_test": sig_test, "sig_child": sig_child,
          "end_how": ends[0]["how"] if ends else None, "end_t": rel(ends[0]["t"]) if ends else None,
          "slow_events": [(e["elapsed_ns"] / 1e6, e["will_terminate"]) for e in slow_ev],
          "nextest_exit_t": rel(res["t_end"]), "sent": [(rel(t), s) for t, s in res["sent"]],
@@ -230,6 +248,13 @@ def oracle_common(sc, obs):
         return None
     if obs.get("pid_alive_after"):
         return f"test process {obs['pid']} still alive after nextest exited"
+    if sc.get("as_script") and obs.get("result") is not None:
+        ok = obs["result"] in ("pass", "leak")
+        if not ok and (obs.get("after_started") or obs["rc"] != 105):
+            return (f"setup script result {obs['result']}: exit status {obs['rc']} (expected 105), "
+                    f"test started afterwards: {obs.get('after_started')}")
+        if ok and not any(n in SHUT for _, n in sc["sigs"]) and (not obs.get("after_started") or obs["rc"] != 0):
+            return f"setup script passed but exit status is {obs['rc']} / the test did not run"
     # a group whose leader ignored the terminating signal is killed with SIGKILL as a whole
     if obs.get("group_alive_after") and sc["on_term"] == "ignore" and (
             obs.get("result") == "timeout" or any(k == "RunBeginCancel" for k, _ in obs.get("cancel_events", []))):
